@@ -16,6 +16,8 @@
 static MPT_INTERFACE(metatype) *slot_mt[NSLOT];
 static MPT_INTERFACE(iterator) *slot_it[NSLOT];
 static int nslot, cur = -1;
+static int slot_grid[NSLOT];
+static int pending_grid = -1;
 static double slot_first[NSLOT];
 static _MPT_ARRAY_TYPE(double) grids[NSLOT];
 static int ngrid;
@@ -61,11 +63,12 @@ static int has_ci(const char *s, const char *w)
 }
 static int unmodelled(const char *s)
 {
-	/* "nan" is modelled (as "not a number": refused) in plain value lists, i.e. texts that do not start with a keyword */
+	/* "nan" (refused) and "inf" (an infinite element) are modelled in plain value lists, i.e. texts that do not
+	 * start with a keyword; there also subnormal literals e-300 .. e-323 are let through */
 	const char *f = s;
 	while (*f == ' ' || (*f >= 9 && *f <= 13)) f++;
 	int keyword = (*f >= 'a' && *f <= 'z') || (*f >= 'A' && *f <= 'Z');
-	if (has_ci(s, "inf") || (keyword && has_ci(s, "nan")) || has_ci(s, "0x") || has_ci(s, "file")) return 1;
+	if ((keyword && has_ci(s, "inf")) || (keyword && has_ci(s, "nan")) || has_ci(s, "0x") || has_ci(s, "file")) return 1;
 	for (const char *p = s; *p; ) {
 		if (*p >= '0' && *p <= '9') {
 			size_t n = 0;
@@ -77,9 +80,13 @@ static int unmodelled(const char *s)
 		if (*p == 'e' || *p == 'E') {
 			const char *q = p + 1;
 			size_t n = 0;
+			int neg = *q == '-';
 			if (*q == '+' || *q == '-') q++;
 			while (q[n] >= '0' && q[n] <= '9') n++;
-			if (n > 2) return 1;
+			if (n > 2) {
+				int sub = !keyword && neg && n == 3 && q[0] == '3' && (q[1] < '2' || (q[1] == '2' && q[2] <= '3'));
+				if (!sub) return 1;
+			}
 		}
 		p++;
 	}
@@ -93,6 +100,7 @@ static int unmodelled(const char *s)
 static void put_num(double v, int exact, double first)
 {
 	if (v == 0) v = 0;              /* -0 -> +0 */
+	if (isinf(v)) { fputs(v < 0 ? "-inf" : "inf", stdout); return; }
 	if (!isfinite(v) || fabs(v) > 1e300 || (v != 0 && fabs(v) < 1e-300)) { fputs("unmodelled", stdout); return; }
 	if (exact) {
 		uint64_t b;
@@ -172,6 +180,7 @@ static void add_slot(MPT_INTERFACE(metatype) *mt, int select, double first)
 		return;
 	}
 	slot_mt[nslot] = mt; slot_it[nslot] = it;
+	slot_grid[nslot] = pending_grid;
 	slot_first[nslot] = first;
 	if (first < 0 && no_probe) slot_first[nslot] = 0;
 	else if (first < 0) {
@@ -234,9 +243,22 @@ int main(void)
 					if (!g) { puts("R prepare-failed | C - | I -"); free(desc); continue; }
 					for (size_t i = 0; i < n; i++) g[i] = ((double) i - 2) / 2;
 				}
+				pending_grid = ngrid - 1;
 				add_slot(mpt_iterator_profile(arr, desc), 1, -1);
+				pending_grid = -1;
 			}
 			free(desc);
+		}
+		else if (!strcmp(op, "grow") && drv_nw == 4) {
+			/* it grow <slot> <n> : the owner of the grid array of a profile/poly source appends n points */
+			size_t k, n;
+			if (drv_parse_nat(drv_w[2], &k) || drv_parse_nat(drv_w[3], &n) || k >= (size_t) nslot || slot_grid[k] < 0 || n > 1000) { puts("bad-op"); continue; }
+			_MPT_ARRAY_TYPE(double) *arr = &grids[slot_grid[k]];
+			size_t have = arr->_buf ? arr->_buf->_used / sizeof(double) : 0;
+			double *g = mpt_values_prepare(arr, (long) n);
+			if (!g && n) { puts("R prepare-failed | C - | I -"); continue; }
+			for (size_t i = 0; i < n; i++) g[i] = ((double) (have + i) - 2) / 2;
+			puts("R ok | C - | I -");
 		}
 		else if (!strcmp(op, "xcreate") && drv_nw == 3) {
 			/* it xcreate <hex> : extreme / non-finite parameters: only the verdict of mpt_iterator_create is observed */
@@ -273,7 +295,9 @@ int main(void)
 				if (!g) { puts("R prepare-failed | C - | I -"); free(desc); continue; }
 				for (size_t i = 0; i < n; i++) g[i] = ((double) i - 2) / 2;
 			}
+			pending_grid = ngrid - 1;
 			add_slot(mpt_iterator_poly(desc, arr), 1, -1);
+			pending_grid = -1;
 			free(desc);
 		}
 		else if (!strcmp(op, "string") && drv_nw == 4) {
@@ -315,6 +339,27 @@ int main(void)
 			no_probe = 1;
 			add_slot(mt, 1, -1);
 			no_probe = 0;
+		}
+		else if (!strcmp(op, "kwalk") && drv_nw == 3) {
+			/* the documented loop reading keys ('k') from a text iterator */
+			size_t cap, n = 0;
+			const char *stop = "cap";
+			if (cur < 0 || drv_parse_nat(drv_w[2], &cap) || cap > 4096) { puts("bad-op"); continue; }
+			fputs("R keys=", stdout);
+			while (n < cap) {
+				const MPT_STRUCT(value) *val = slot_it[cur]->_vptr->value(slot_it[cur]);
+				const char *key = 0;
+				int r;
+				if (!val) { stop = "null"; break; }
+				if (mpt_value_convert(val, 'k', &key) < 0 || !key) { stop = "noconv"; break; }
+				if (n) fputc(',', stdout);
+				drv_puthex(stdout, (const uint8_t *) key, strnlen(key, 4096));
+				++n;
+				if ((r = slot_it[cur]->_vptr->advance(slot_it[cur])) < 0) { stop = "err"; break; }
+				if (!r) { stop = "end"; break; }
+			}
+			if (!n) fputc('-', stdout);
+			printf(" n=%zu stop=%s | C - | I -\n", n, stop);
 		}
 		else if (!strcmp(op, "word") && drv_nw == 2) {
 			/* current element of a text iterator as a word (vector of char) */
